@@ -253,6 +253,8 @@ class nd:
     @classmethod
     def _wrap(cls, data, like=None, alias=None, dtype=None):
         k = type(like) if like is not None else cls
+        if k is MaskedSel:
+            k = type(like._src_owner) if getattr(like, "_src_owner", None) is not None else nd
         o = object.__new__(k)
         o._d = data
         o.dtype = dtype if dtype is not None else (like.dtype if like is not None else None)
@@ -441,6 +443,9 @@ class nd:
     def argmax(self, axis=None):
         return argmax(self, axis)
 
+    def argsort(self, axis=-1, **kw):
+        return argsort(self, axis, **kw)
+
     # ---- indexing ------------------------------------------------------------------------------------------------
     def _concrete_mask(self, m):
         """boolean mask with symbolic entries -> concrete (branching on every entry: shape-changing selection)"""
@@ -562,7 +567,7 @@ def _index(d, key, owner):
         m0 = _todata(key[0])
         if owner is not None and d is owner._d and len(_shape(m0)) == 1 and any(type(x) is SBool for x in m0) \
                 and len(m0) == len(d) and not isinstance(d[0] if d else 0, list):
-            return MaskedSel(list(d), list(m0))     # only for `y[m]` on a 1-D array itself (never inside a recursion)
+            return MaskedSel(list(d), list(m0), owner)     # only for `y[m]` on a 1-D array itself (never inside a recursion)
         m = _concretise_mask(m0)
         msh = _shape(m)
         if len(msh) == 1:
@@ -585,6 +590,19 @@ def _index(d, key, owner):
             if rest and (isi(rest[0], nd) or isinstance(rest[0], list)) and not _is_mask(rest[0]):
                 # paired fancy indexing a[rows, cols]; a symbolic row index selects by an if-then-else chain
                 rd = _todata(rest[0])
+                ksh, rsh = _shape(kd), _shape(rd)
+                if len(ksh) > 1 or len(rsh) > 1:
+                    # broadcasting pair of index arrays, e.g. a[arange(r).reshape(-1, 1), argsort(a)]
+                    if rest[1:]:
+                        raise Unsupported("fancy indexing with more than two index arrays")
+                    tsh = _bshape(ksh, rsh)
+
+                    def pick(idx):
+                        i, j = _get(kd, ksh, idx, tsh), _get(rd, rsh, idx, tsh)
+                        if is_sym(i) or is_sym(j):
+                            raise Unsupported("broadcast fancy indexing with symbolic indices")
+                        return d[int(i)][int(j)]
+                    return _build(tsh, (pick(idx) for idx in itertools.product(*[range(n) for n in tsh])))
                 out = []
                 for i, j in zip(kd, rd):
                     if is_sym(i):
@@ -672,7 +690,14 @@ def _assign(arr, key, value):
         return
     if len(key) == 2 and (isi(key[0], nd) or isinstance(key[0], list)) and (isi(key[1], nd) or isinstance(key[1], list)):
         for i, j in zip(_todata(key[0]), _todata(key[1])):
-            d[int(i)][int(j)] = vd
+            if is_sym(j):
+                raise Unsupported("fancy assignment with a symbolic column index")
+            if is_sym(i):
+                # a symbolic row index (e.g. the result of argmax over symbolic data): written as if-then-else per row
+                for r in range(len(d)):
+                    d[r][int(j)] = s_where(i == r, vd, d[r][int(j)])
+            else:
+                d[int(i)][int(j)] = vd
         return
     if len(key) == 1 and type(key[0]) is int:
         d[key[0]] = vd
@@ -694,13 +719,14 @@ class MaskedSel(nd):
     """`y[m]` for a symbolic 1-D mask m: consumed lazily by `x[m] = y[m]` (if-then-else); any other use makes the mask
     concrete by branching on its entries"""
 
-    def __new__(cls, src, mask):
+    def __new__(cls, src, mask, owner=None):
         return object.__new__(cls)
 
-    def __init__(self, src, mask):
+    def __init__(self, src, mask, owner=None):
         object.__setattr__(self, "_src", src)
         object.__setattr__(self, "_mask", mask)
         object.__setattr__(self, "_cache", None)
+        object.__setattr__(self, "_src_owner", owner)
         self.dtype = None
         self._alias = None
         self._epoch = _epoch()
@@ -716,6 +742,15 @@ class MaskedSel(nd):
     @_d.setter
     def _d(self, v):
         object.__setattr__(self, "_cache", v)
+
+    def _ew(self, o, f, rev=False):
+        # y[m] (op) scalar stays a lazy selection under the same mask, so that x[m] = y[m] * c is still an if-then-else
+        if not isi(o, nd) and not isinstance(o, (list, tuple)):
+            return MaskedSel([(f(o, a) if rev else f(a, o)) for a in self._src], self._mask, self._src_owner)
+        return nd._ew(self, o, f, rev)
+
+    def __neg__(self):
+        return MaskedSel([-a for a in self._src], self._mask, self._src_owner)
 
 
 # ------------------------------------------------------------------------------------------------------------------
@@ -973,6 +1008,40 @@ def stack(arrs, axis=0):
     return nd._wrap([x._d for x in arrs], arrs[0])
 
 
+def argsort(x, axis=-1, kind=None, **kw):
+    """stable argsort of a 1-D array with symbolic entries: the permutation is concrete on every path (the comparisons
+    branch), as numpy's result is for concrete data; 2-D: along the last axis, row by row"""
+    if kw:
+        raise Unsupported("numpy.argsort with order= / stable= arguments on a symbolic array")
+    x = asarray(x)
+    sh = x.shape
+    if len(sh) == 2 and axis in (-1, 1):
+        return nd._wrap([argsort(nd._wrap(list(row), None))._d for row in x._d], None)
+    if len(sh) != 1:
+        raise Unsupported("numpy.argsort of this rank / axis on a symbolic array")
+    vals = list(x._d)
+    order = []
+    for i in range(len(vals)):
+        pos = len(order)
+        # insertion from the right keeps equal elements in index order (stable)
+        while pos > 0 and bool(vals[i] < vals[order[pos - 1]]):
+            pos -= 1
+        order.insert(pos, i)
+    return nd._wrap(order, None)
+
+
+def cumsum(x, axis=None):
+    x = asarray(x)
+    if axis is None or len(x.shape) == 1:
+        flat = list(_flat(x._d))
+        out, acc = [], 0
+        for v in flat:
+            acc = acc + v
+            out.append(acc)
+        return nd._wrap(out, None)
+    raise Unsupported("numpy.cumsum along an axis of a 2-D symbolic array")
+
+
 def array_split(x, n, axis=0):
     if axis != 0 or type(n) is not int:
         raise Unsupported("numpy.array_split with sections / another axis")
@@ -1045,7 +1114,7 @@ def make_numpy_namespace(real_numpy):
         "logical_and": _ufunc2(_sand), "logical_or": _ufunc2(_sor), "logical_not": _ufunc1(snot),
         "abs": _ufunc1(_sabs), "absolute": _ufunc1(_sabs), "sign": _ufunc1(_ssign), "negative": _ufunc1(lambda x: -x),
         "where": where, "concatenate": concatenate, "hstack": hstack, "vstack": vstack, "stack": stack,
-        "array_split": array_split, "zeros_like": zeros_like, "ones_like": ones_like, "full": full, "count_nonzero": count_nonzero,
+        "array_split": array_split, "argsort": argsort, "cumsum": cumsum, "zeros_like": zeros_like, "ones_like": ones_like, "full": full, "count_nonzero": count_nonzero,
         "any": _red("any"), "all": _red("all"), "amax": amax, "amin": amin,
     })
     for name in dir(real_numpy):
